@@ -68,8 +68,7 @@ def text_docs():
 
 
 def clip_text_docs():
-    """text inside a clipPath, without and with a transform (the latter is one more group level in the tree: F-candidate
-    clip-text-transform-dropped), and a shape with a transform next to it (control)"""
+    """text inside a clipPath, without and with a transform (the latter is one more group level in the tree: dropped by the writer before 5d8487d), and a shape with a transform next to it (control)"""
     body = ('<defs><clipPath id="c1">%s</clipPath></defs><rect width="200" height="200" fill="teal" clip-path="url(#c1)"/>')
     t = '<text x="20" y="120"%s font-size="60"%s>Clip</text>'
     return [('clip-text', _doc(body % (t % (FONT, '')))),
@@ -121,4 +120,29 @@ def id_once_problems(text, d, walk, prefix):
             out.append('written reference #%s is not prefix + an id of the tree' % x)
         elif x not in defs:
             out.append('written reference #%s has no written definition (written ids: %s)' % (x, ', '.join(sorted(set(defs)))[:200]))
+    return out
+
+
+def gradient_stop_lists():
+    """stop lists (offset, colour, opacity or None): repeated colours at different offsets, equal offsets with different colours,
+    repeated colour + opacity, three in a row, a repeat at the end"""
+    return [
+        [(0, 'red', None), (0.6, 'red', None), (1, 'blue', None)],
+        [(0, 'blue', None), (0.3, 'red', None), (0.7, 'red', None), (1, 'blue', None)],
+        [(0, 'red', None), (0.5, 'red', None), (0.5, 'blue', None), (1, 'blue', None)],
+        [(0, 'red', 0.5), (0.7, 'red', 0.5), (1, 'red', 1)],
+        [(0, 'green', None), (0.2, 'green', None), (0.4, 'green', None), (1, 'yellow', None)],
+        [(0, 'black', None), (0.4, 'white', None), (0.9, 'white', None)],
+        [(0.1, 'red', 0.25), (0.5, 'red', 0.75), (0.9, 'red', 0.25)],
+    ]
+
+
+def gradient_stop_docs():
+    out = []
+    for k, stops in enumerate(gradient_stop_lists()):
+        st = ''.join('<stop offset="%s" stop-color="%s"%s/>' % (o, c, '' if a is None else ' stop-opacity="%s"' % a) for o, c, a in stops)
+        out.append(('stops-linear-%d' % k, _doc('<linearGradient id="g" gradientUnits="userSpaceOnUse" x1="10" x2="190">%s</linearGradient>'
+                                                '<rect x="10" y="10" width="180" height="180" fill="url(#g)"/>' % st)))
+        out.append(('stops-radial-%d' % k, _doc('<radialGradient id="g" gradientUnits="userSpaceOnUse" cx="100" cy="100" r="90">%s</radialGradient>'
+                                                '<rect x="10" y="10" width="180" height="180" fill="url(#g)"/>' % st)))
     return out
